@@ -19,7 +19,7 @@ SIZES = [1, 2, 127, 128, 129, 143, 144, 145, 1000, 31999, 32000, 32001, 65536]
 def plan(tier):
     if tier == "quick":
         return [("debug", 16, dict(n=14, maxsize=120 << 10, strace=0)), ("release", 4, dict(n=8, maxsize=120 << 10, strace=0))]
-    return [("debug", 16, dict(n=80, maxsize=300 << 10, strace=6)), ("release", 4, dict(n=50, maxsize=300 << 10, strace=0)), ("asan", 2, dict(n=10, maxsize=64 << 10, strace=0))]
+    return [("debug", 16, dict(n=300, maxsize=300 << 10, strace=6)), ("release", 8, dict(n=150, maxsize=300 << 10, strace=0)), ("asan", 4, dict(n=25, maxsize=64 << 10, strace=0))]
 
 
 def rname(rng):
